@@ -9,6 +9,42 @@ use super::*;
 // DIRLEN (<= 2), SRCLEN (1..=2): lengths of the configuration directory and of source_dir in u_ctx_new
 include!("verif_bounds.rs");
 
+// symbolic inputs go through these wrappers so that a counterexample can be re-executed with every input pinned
+include!("verif_replay.rs");
+static mut RP_IDX: usize = 0;
+fn rp_next() -> [u8; 8]
+{
+    unsafe {
+        let i = RP_IDX;
+        RP_IDX += 1;
+        let mut out = [0u8; 8];
+        if i < REPLAY_N
+        {
+            out[0] = REPLAY_FLAT[i * 8];
+            out[1] = REPLAY_FLAT[i * 8 + 1];
+            out[2] = REPLAY_FLAT[i * 8 + 2];
+            out[3] = REPLAY_FLAT[i * 8 + 3];
+            out[4] = REPLAY_FLAT[i * 8 + 4];
+            out[5] = REPLAY_FLAT[i * 8 + 5];
+            out[6] = REPLAY_FLAT[i * 8 + 6];
+            out[7] = REPLAY_FLAT[i * 8 + 7];
+        }
+        out
+    }
+}
+fn sym_u8() -> u8
+{
+    if REPLAY_ON { rp_next()[0] } else { kani::any() }
+}
+fn sym_bool() -> bool
+{
+    if REPLAY_ON { rp_next()[0] != 0 } else { kani::any() }
+}
+fn sym_u32() -> u32
+{
+    if REPLAY_ON { let b = rp_next(); u32::from_le_bytes([b[0], b[1], b[2], b[3]]) } else { kani::any() }
+}
+
 static mut EXISTS: bool = false;
 static mut READ_OK: bool = false;
 static mut PARSE_OK: bool = false;
@@ -351,7 +387,7 @@ fn stub_from_utf8(v: &[u8]) -> Result<&str, std::str::Utf8Error>
 }
 fn dir_char() -> u8
 {
-    let c: u8 = kani::any();
+    let c: u8 = sym_u8();
     kani::assume(c == b'c' || c == b'/' || c == b'.');
     c
 }
@@ -381,19 +417,19 @@ fn u_ctx_new()
         // the configuration parses (the error branch formats a serde_yaml error: `to_string()` is out of CBMC's reach)
         CFG_OK = true;
         CFG_SRC_LEN = SRCLEN;
-        CFG_SRC[0] = kani::any();
+        CFG_SRC[0] = sym_u8();
         kani::assume(CFG_SRC[0] == b's' || CFG_SRC[0] == b'/' || CFG_SRC[0] == b'.');
-        CFG_SRC[1] = kani::any();
+        CFG_SRC[1] = sym_u8();
         kani::assume(CFG_SRC[1] == b's' || CFG_SRC[1] == b'/' || CFG_SRC[1] == b'.');
-        CFG_USE_CACHE = kani::any();
-        EXISTS = kani::any();
+        CFG_USE_CACHE = sym_bool();
+        EXISTS = sym_bool();
         // reading and parsing succeed: their failures are u_ctx_read's subject, and dropping an io::Error or a
         // serde_yaml::Error makes CBMC's allocator model raise spurious failures that would mask the assertions below
         READ_OK = true;
         PARSE_OK = true;
-        PARSED = kani::any();
+        PARSED = sym_u32();
     }
-    let check_mode: bool = kani::any();
+    let check_mode: bool = sym_bool();
     let r = Context::new(String::new(), dir.as_str(), check_mode);
     unsafe {
         assert!(PATH_OK, "C15: the lock file is looked for next to the configuration file (<config dir>/Breadlog.lock)");
@@ -447,15 +483,19 @@ fn u_ctx_write_path()
 {
     log::set_max_level(log::LevelFilter::Off);
     let dir = unsafe { any_dir() };
-    let mut cfg = any_config();
-    cfg.use_cache = true;
+    let cfg = Config {
+        config_dir: String::new(),
+        source_dir: String::new(),
+        use_cache: true,
+        rust: RustConfig { structured: sym_bool(), log_macros: Vec::new(), extensions: Vec::new() },
+    };
     let ctx = Context {
         config: cfg,
         cached_next_reference_id: None,
         check_mode: false,
-        stop_commanded: std::sync::Arc::new(std::sync::atomic::AtomicBool::new(kani::any())),
+        stop_commanded: std::sync::Arc::new(std::sync::atomic::AtomicBool::new(sym_bool())),
     };
-    let id: u32 = kani::any();
+    let id: u32 = sym_u32();
     ctx.cache_next_reference_id(id, dir.as_str());
     unsafe {
         assert!(MUTATIONS == 1 && PATH_OK, "C15: the lock file is written next to the configuration file (<config dir>/Breadlog.lock)");
